@@ -97,6 +97,12 @@ package scorch
 //@ spec segsOKn(segs []*SegmentSnapshot, n int) bool = forall(k, 0, n, segs[k] != nil && segs[k].segment != nil && implies(typeis(segs[k].segment, segment.NestedSegment), nestedClosed(segs[k].segment, segs[k].deleted)))
 //@ spec rootShape(is *IndexSnapshot) bool = is != nil && len(is.offsets) == len(is.segment) && runningOffsets(is.segment, is.offsets, len(is.segment)) && segsOKn(is.segment, len(is.segment))
 
+// a segment snapshot of the new root that continues a segment of the old root: same segment, and
+// no deletion is lost: what was deleted stays deleted, and what the batch obsoletes (looked up
+// optimistically per segment id) is deleted
+//@ spec keptFrom(ns *SegmentSnapshot, os *SegmentSnapshot, obs map[uint64]*roaring.Bitmap) bool = ns.id == os.id && ns.segment == os.segment && \
+//@     all(x, uint32, implies(bin(os.deleted, x) || (in(obs, os.id) && bin(obs[os.id], x)), bin(ns.deleted, x)))
+
 //@ func Scorch.introduceSegment
 //@   props C01 C20 C08
 //@   mode int
@@ -110,6 +116,8 @@ package scorch
 //@   ensures implies(result == nil, s.root != old(s.root) && rootShape(s.root) && s.root.epoch == old(s.nextSnapshotEpoch) && s.nextSnapshotEpoch == old(s.nextSnapshotEpoch) + 1)
 //@   ensures implies(result == nil && next.data != nil, len(s.root.segment) > 0 && s.root.segment[len(s.root.segment)-1].id == next.id && s.root.segment[len(s.root.segment)-1].segment == next.data && s.root.segment[len(s.root.segment)-1].deleted == nil)
 //@   ensures implies(result != nil, s.root == old(s.root))
+//@   ensures implies(result == nil, forall(k, 0, len(s.root.segment) - ite(next.data != nil, 1, 0), exists(j, 0, old(len(s.root.segment)), keptFrom(s.root.segment[k], old(s.root.segment[j]), next.obsoletes))))
+//@   loop 0: invariant forall(k, 0, len(newSnapshot.segment), exists(j, 0, iter, keptFrom(newSnapshot.segment[k], root.segment[j], next.obsoletes)))
 //@   loop 0: invariant s.root == old(s.root) && root == old(s.root) && newSnapshot != nil && fresh(newSnapshot) && !held(s.rootLock) && rheld(s.rootLock) == 0 && s.nextSnapshotEpoch == old(s.nextSnapshotEpoch)
 //@   loop 0: invariant root != newSnapshot && root.segment == old(s.root.segment) && root.internal == old(s.root.internal) && next.obsoletes == old(next.obsoletes) && next.data == old(next.data) && next.id == old(next.id)
 //@   loop 0: invariant len(newSnapshot.offsets) == len(newSnapshot.segment) && len(newSnapshot.segment) <= iter && (cap(newSnapshot.segment) == 0 || fresh(newSnapshot.segment)) && (cap(newSnapshot.offsets) == 0 || fresh(newSnapshot.offsets))
